@@ -216,6 +216,9 @@ def replay_file(path):
         res = c36.battery(exe)
         print(json.dumps([(r[0], r[2], r[3]) for r in res]))
         return 1 if any(r[2] for r in res) else 0
+    if kind == "config_merge":
+        import c32
+        return c32.replay_scenario(sc)
     if kind == "config_load":
         import c31
         return c31.replay_scenario(sc)
